@@ -577,6 +577,8 @@ class _QueryMessage(_MessageType):
         if self.continuous_paging_options:
             if ProtocolVersion.has_continuous_paging_support(protocol_version):
                 flags |= _PAGING_OPTIONS_FLAG
+                if self.fetch_size and self.continuous_paging_options.page_unit_bytes():
+                    flags |= _PAGE_SIZE_BYTES_FLAG
             else:
                 raise UnsupportedOperation(
                     "Continuous paging may only be used with protocol version "
